@@ -9,8 +9,12 @@ decoded).  Search: brute-force oracle over the stored points with the half-step 
 malformed page references under a watchdog."""
 import io
 import math
+import os
+import re
 import signal
 import struct
+import tempfile
+import threading
 from fractions import Fraction
 
 import numpy as np
@@ -30,8 +34,11 @@ ASSUMPTIONS = [
     "binary64 operations; the theorems use the unrounded quotient (C15_inside, C15_enclosing) or any q (C15_points)",
     "+-inf box bounds are given to the model as +-2^k beyond every finite quantity of the case (order-equivalent)",
     "math.log2 rounding is not modelled: resolutions are exact powers of two of the spacing or well away from them",
-    "local source (BytesIO with readinto); the HTTP strategies are property C16; level ranges with a step are only "
-    "checked by the oracle (the model has step 1)",
+    "http sources are served in-process by a fake requests session that answers every range request with exactly the "
+    "requested bytes (laspy's HttpRangeStream, fetcher threads and both strategies are the real ones; schedules and "
+    "failing requests are property C16); level ranges with a step are only checked by the oracle (the model has step 1)",
+    "the chunks of the nodes a query selects do not overlap in the file (`apart`, checked on every generated file): the "
+    "hypothesis under which the byte queries ascend strictly (C15_queue_order, C15_any_source)",
 ]
 
 I32_MIN, I32_MAX = -2 ** 31, 2 ** 31 - 1
@@ -72,6 +79,126 @@ class SpySource(io.BytesIO):
     def readinto(self, b):
         self.reads.append((self.tell(), len(b)))
         return super().readinto(b)
+
+
+class PlainSource:
+    """a file-like object with read / seek / tell only (no readinto): the third local fetch path"""
+
+    def __init__(self, raw):
+        self._b = io.BytesIO(raw)
+
+    def read(self, n=-1):
+        return self._b.read(n)
+
+    def seek(self, pos, whence=0):
+        return self._b.seek(pos, whence)
+
+    def tell(self):
+        return self._b.tell()
+
+    def close(self):
+        self._b.close()
+
+
+# ---- an in-process HTTP server: laspy's real HttpRangeStream / HttpFetcherThread / both fetch strategies run on a fake
+# ---- `requests` session that answers a range request with exactly the requested bytes (schedules and faults: C16)
+class _FakeResponse:
+    def __init__(self, status, content):
+        self.status_code = status
+        self.content = content
+
+    def raise_for_status(self):
+        if self.status_code >= 400:
+            raise RuntimeError(f"HTTP status {self.status_code}")
+
+
+class HttpWorld:
+    def __init__(self):
+        self.files = {}
+        self.log = []
+        self.lock = threading.Lock()
+
+    def register(self, raw):
+        url = f"http://c15.fake/{len(self.files)}.copc.laz"
+        self.files[url] = raw
+        return url
+
+
+WORLD = HttpWorld()
+
+
+class FakeSession:
+    def get(self, url, headers=None, **kw):
+        raw = WORLD.files[url]
+        m = re.fullmatch(r"bytes=(\d+)-(\d+)", (headers or {}).get("Range", ""))
+        if not m:
+            return _FakeResponse(200, raw)
+        a, b = int(m.group(1)), int(m.group(2))
+        with WORLD.lock:
+            WORLD.log.append((a, b - a + 1))
+        if a >= len(raw):
+            return _FakeResponse(416, b"")
+        return _FakeResponse(206, raw[a:b + 1])
+
+    def mount(self, *a, **k):
+        pass
+
+    def close(self):
+        pass
+
+
+def install_http():
+    laspy, C = _laspy()
+    if getattr(C.requests_retry_session, "_c15", False):
+        return
+    fn = lambda *a, **k: FakeSession()  # noqa: E731
+    fn._c15 = True
+    C.requests_retry_session = fn
+    if C.requests is None:
+        C.requests = object()
+
+
+SOURCES = ["bytesio", "plain", "path", "http-queue/1", "http-queue/2", "http-queue/5", "http-executor/1", "http-executor/3"]
+
+
+def open_reader(raw, source="bytesio"):
+    """a CopcReader on the file's bytes through one of the source kinds -> (reader, cleanup)"""
+    laspy, C = _laspy()
+    if source == "bytesio":
+        return C.CopcReader(io.BytesIO(raw)), (lambda: None)
+    if source == "spy":
+        return C.CopcReader(SpySource(raw)), (lambda: None)
+    if source == "plain":
+        return C.CopcReader(PlainSource(raw)), (lambda: None)
+    if source == "path":
+        fd, path = tempfile.mkstemp(prefix="c15_", suffix=".copc.laz", dir="/var/tmp")
+        with os.fdopen(fd, "wb") as fh:
+            fh.write(raw)
+
+        holder = []
+
+        def cleanup():
+            try:
+                if holder:
+                    holder[0].source.close()
+            finally:
+                if os.path.exists(path):
+                    os.unlink(path)
+        try:
+            rd = C.CopcReader.open(path)
+        except BaseException:
+            cleanup()
+            raise
+        holder.append(rd)
+        return rd, cleanup
+    if source.startswith("http-"):
+        install_http()
+        strategy, n = source[5:].split("/")
+        url = WORLD.register(raw)
+        if strategy == "queue":     # the default strategy, through the public constructor
+            return C.CopcReader.open(url, http_num_threads=int(n)), (lambda: None)
+        return C.CopcReader(C.HttpRangeStream(url), http_num_threads=int(n), _http_strategy="executor"), (lambda: None)
+    raise ValueError(source)
 
 
 _PROXY = None
@@ -201,11 +328,24 @@ def entry_bytes(k, off, size, cnt):
     return struct.pack("<iiiiQii", k[0], k[1], k[2], k[3], off, size, cnt)
 
 
-def build_file(rng, malformed=None, depth=None, budget=None):
+def shift_geometry(geo, dz_sides):
+    """the same root cube moved by a whole number of cube sides along z (a tile above / below): same x / y window"""
+    g = dict(geo)
+    center = list(geo["center"])
+    center[2] = center[2] + dz_sides * geo["side"]
+    lo = list(geo["lo"])
+    lo[2] = center[2] - geo["half"]
+    assert Fraction(lo[2]) == Fraction(center[2]) - Fraction(geo["half"]) and \
+        Fraction(center[2]) == Fraction(geo["center"][2]) + dz_sides * Fraction(geo["side"]), "inexact shifted cube"
+    g["center"], g["lo"] = center, lo
+    return g
+
+
+def build_file(rng, malformed=None, depth=None, budget=None, geo=None):
     """returns dict(raw, geo, fmt, nodes={key: [tags]}, points={tag: (X,Y,Z,rec_bytes,key)}, spacing, hdr_z, label)"""
     laspy, C = _laspy()
     fmt = rng.choice([6, 7, 8])
-    geo = gen_geometry(rng)
+    geo = geo if geo is not None else gen_geometry(rng)
     depth = depth if depth is not None else rng.choice([0, 1, 2, 2, 3, 3, 4, 5])
     budget = budget if budget is not None else rng.choice([1, 3, 8, 14, 25, 40])
     keys = gen_keys(rng, depth, budget)
@@ -560,40 +700,101 @@ def gen_query(rng, f):
     return (box, lv)
 
 
-def run_impl(reader_or_raw, q, spy=False):
-    """-> ('ok', [record bytes]) | ('e', kind) ; fresh reader when given raw bytes"""
+BOX_CONTAINERS = ["f64", "f64", "f64", "i64", "f32"]
+
+
+def make_bounds(box, container="f64"):
+    """the caller's Bounds object; the container falls back to float64 when it cannot hold the values exactly"""
+    laspy, C = _laspy()
+    if box is None:
+        return None
+    dt = np.float64
+    vals = list(box[0]) + list(box[1])
+    if container == "i64" and all(math.isfinite(v) and float(v).is_integer() and abs(v) < 2 ** 53 for v in vals):
+        dt = np.int64
+    elif container == "f32":
+        with np.errstate(all="ignore"):
+            if all(float(np.float32(v)) == v or (v != v) for v in vals):
+                dt = np.float32
+    return C.Bounds(mins=np.array(box[0], dtype=dt), maxs=np.array(box[1], dtype=dt))
+
+
+def make_level(lv):
+    """(level object, resolution) of a levels tuple"""
+    if lv[0] == "I":
+        return lv[1], None
+    if lv[0] == "R":
+        return range(lv[1], lv[2]), None
+    if lv[0] == "T":
+        return range(lv[1], lv[2], lv[3]), None
+    if lv[0] == "S":
+        return None, lv[1]
+    return None, None
+
+
+def snap_bounds(b):
+    """what the caller can see of its Bounds object"""
+    if b is None:
+        return None
+    out = []
+    for a in (b.mins, b.maxs):
+        arr = np.asarray(a)
+        out.append((type(a).__name__, arr.dtype.str, tuple(arr.shape), arr.tobytes().hex()))
+    return tuple(out)
+
+
+def snap_reader(rd):
+    """what a query must leave alone in the reader: the header's scaling and extent"""
+    h = rd.header
+    return tuple(np.asarray(a, dtype=np.float64).tobytes() for a in (h.mins, h.maxs, h.scales, h.offsets)) + (int(h.point_count),)
+
+
+def run_impl(reader_or_raw, q, spy=False, source="bytesio", bounds=None, level=None, info=None):
+    """-> ('ok', [record bytes], reader) | ('e', kind, None); fresh reader (through `source`) when given raw bytes.
+    bounds / level: the caller's objects to use instead of fresh ones (re-use across queries and files).
+    info (dict): filled with what the query did to the caller's Bounds and to the reader's header"""
     laspy, C = _laspy()
     proxy()
     box, lv = q
+    cleanup = None
+    info = info if info is not None else {}
     try:
-        rd = reader_or_raw if not isinstance(reader_or_raw, (bytes, bytearray)) else C.CopcReader(
-            SpySource(reader_or_raw) if spy else io.BytesIO(reader_or_raw))
-        b = None if box is None else C.Bounds(mins=np.array(box[0], dtype=np.float64), maxs=np.array(box[1], dtype=np.float64))
-        level = None
-        res = None
-        if lv[0] == "I":
-            level = lv[1]
-        elif lv[0] == "R":
-            level = range(lv[1], lv[2])
-        elif lv[0] == "T":
-            level = range(lv[1], lv[2], lv[3])
-        elif lv[0] == "S":
-            res = lv[1]
+        if isinstance(reader_or_raw, (bytes, bytearray)):
+            rd, cleanup = open_reader(reader_or_raw, "spy" if spy else source)
+        else:
+            rd = reader_or_raw
+        b = bounds if bounds is not None else make_bounds(box)
+        lvl, res = make_level(lv)
+        if level is not None:
+            lvl = level
+        info["bounds_obj"] = b
+        before = (snap_bounds(b), snap_reader(rd))
 
         def call():
-            if b is not None and level is None and res is None:
+            if b is not None and lvl is None and res is None:
                 return rd.spatial_query(b)
-            if b is None and level is not None:
-                return rd.level_query(level)
-            return rd.query(bounds=b, resolution=res, level=level)
-        pts = with_watchdog(call)
+            if b is None and lvl is not None:
+                return rd.level_query(lvl)
+            return rd.query(bounds=b, resolution=res, level=lvl)
+        try:
+            pts = with_watchdog(call)
+        finally:
+            after = (snap_bounds(b), snap_reader(rd))
+            if before[0] != after[0]:
+                info["bounds_changed"] = (before[0], after[0])
+            if before[1] != after[1]:
+                info["header_changed"] = True
         raw = pts.array.tobytes()
         sz = pts.point_format.size
         return ("ok", [raw[i * sz:(i + 1) * sz] for i in range(len(pts))], rd)
     except Watchdog:
         return ("e", "LOOPS", None)
     except Exception as ex:  # noqa
+        info["error"] = f"{type(ex).__name__}: {ex}"[:300]
         return ("e", common.exc_kind(ex), None)
+    finally:
+        if cleanup is not None and source == "path":
+            cleanup()
 
 
 # ---- exact scaling for the model -----------------------------------------------------------------------
@@ -660,7 +861,21 @@ def scaled_inputs(f, q):
         s = Fraction(geo["scales"][i])
         ax += [s.numerator, s.denominator, sc(geo["offsets"][i])]
     csys = ",".join(str(v) for v in [D] + ax)
-    return geom, qbox, hz, qgrid, lvt, csys
+    return geom, qbox, hz, qgrid, lvt, csys, sc
+
+
+def caller_token(b, sc):
+    """the caller's Bounds object as the model's qbox token (same unit as the query's box)"""
+    if b is None:
+        return "N"
+    try:
+        mins = [float(v) for v in np.asarray(b.mins).reshape(-1)]
+        maxs = [float(v) for v in np.asarray(b.maxs).reshape(-1)]
+        if len(mins) != len(maxs) or len(mins) not in (2, 3):
+            return f"shape:{len(mins)},{len(maxs)}"
+        return f"{len(mins)}:" + ",".join(str(sc(v)) for v in mins + maxs)
+    except Exception as ex:  # noqa: a value that is not of the case's unit
+        return "other:" + common.exc_kind(ex)
 
 
 def q_canon(q):
@@ -754,11 +969,27 @@ def oracle(f, q, got):
 # check entry points
 # ------------------------------------------------------------------------------------------------------
 _CASES = None
+_SESSIONS = None
+
+
+def gen_order(rng, nfiles):
+    """a history over the files: every file at least once, some twice, not sorted"""
+    order = list(range(nfiles)) + [rng.randrange(nfiles) for _ in range(rng.choice([1, 2, 3]))]
+    rng.shuffle(order)
+    return order
+
+
+def all_xy_box(rng):
+    """2-D boxes that contain every file's x / y extent"""
+    v = rng.choice([math.inf, math.inf, 1e30, 1e300, 3e9])
+    return ([-v, -v], [v, v])
 
 
 def make_cases(ctx):
+    global _SESSIONS
     rng = ctx.rng
     cases = []
+    sessions = []
     nfiles = ctx.n(45, 400)
     for i in range(nfiles):
         f = build_file(rng)
@@ -768,6 +999,37 @@ def make_cases(ctx):
     for depth, budget in [(0, 1), (1, 9), (5, 40)]:
         f = build_file(rng, depth=depth, budget=budget)
         cases.append((f, [(None, ("A",))] + [gen_query(rng, f) for _ in range(6)]))
+    # tiles: files that share the x / y window of their root cube (the same cube, or the cube moved up / down by whole
+    # sides) and differ in content and z range; the same queries are asked of every file of the family
+    for _ in range(ctx.n(10, 60)):
+        geo = gen_geometry(rng)
+        shifts = [0] + [rng.choice([0, 1, -1, 2, -3]) for _ in range(rng.choice([1, 2, 2]))]
+        fam = []
+        for dz in shifts:
+            try:
+                fam.append(build_file(rng, geo=shift_geometry(geo, dz), depth=rng.choice([1, 2, 3]), budget=rng.choice([3, 8, 14])))
+            except AssertionError:
+                continue
+        qs = []
+        for _q in range(ctx.n(6, 10)):
+            box, lv = gen_query(rng, rng.choice(fam))
+            if box is not None and rng.random() < 0.6:
+                box = (box[0][:2], box[1][:2])      # mostly windows in x / y
+            if box is None and rng.random() < 0.5:
+                box = all_xy_box(rng)
+            qs.append((box, lv))
+        for f in fam:
+            cases.append((f, list(qs)))
+        for q in qs:
+            sessions.append((fam, q, gen_order(rng, len(fam)), rng.choice(BOX_CONTAINERS), {}))
+    # unrelated files, one window that contains them all (and any other query) with the same objects
+    plain = [f for f, _ in cases[:nfiles]]
+    for i in range(0, len(plain) - 2, 3):
+        fam = plain[i:i + 3]
+        for q in [(all_xy_box(rng), gen_levels(rng, rng.choice(fam)) if rng.random() < 0.5 else ("A",)),
+                  gen_query(rng, rng.choice(fam))]:
+            srcs = {k: rng.choice(SOURCES) for k in range(len(fam)) if rng.random() < 0.5}
+            sessions.append((fam, q, gen_order(rng, len(fam)), rng.choice(BOX_CONTAINERS), srcs))
     # malformed hierarchies
     for kind in MALFORMED:
         for _ in range(ctx.n(2, 10)):
@@ -781,6 +1043,7 @@ def make_cases(ctx):
             away = ([float(c[0]) + shrink for c in oc], [float(c[1]) - shrink for c in oc])
             cases.append((f, [(None, ("A",)), (inside_bad, ("A",)), (away, ("A",)), (None, ("I", 0)), (None, ("R", 0, 2)),
                               gen_query(rng, f)]))
+    _SESSIONS = sessions
     return cases
 
 
@@ -794,34 +1057,42 @@ def correspond(ctx):
         "COPC files built in memory: formats 6/7/8; dyadic root cubes (small / large / at the end of the int32 grid / sub-unit), "
         "scales incl. 0.01/0.001 and powers of two, depth 0..5, 1..40 occupied keys, 0..5 points per node (empty interior and "
         "leaf nodes, with an empty chunk or offset 0 / size 0), points biased to voxel faces, hierarchy split over random pages, "
-        "chunks and pages shuffled with gaps; queries: boxes inside / straddling / enclosing / disjoint / 1e30,1e300 / +-inf / "
+        "chunks and pages shuffled with gaps (chunks in any order, not level by level); families of tiles (the same x / y "
+        "window, other content and z range) asked the same queries; queries: boxes inside / straddling / enclosing / "
+        "disjoint / 1e30,1e300 / +-inf / "
         "on voxel faces / touching from outside / on point coordinates / half a step off points / header bounds, 2-D and 3-D, "
         "level None / int / range (also empty) / resolution at and away from powers of two; malformed: self reference, page "
-        "without the key, chained reference, beyond EOF, cut entry, mutually resetting pages. non-trivial = malformed, or the "
+        "without the key, chained reference, beyond EOF, cut entry, mutually resetting pages. Sources: BytesIO, file object "
+        "without readinto, path on disk, http (queue and executor strategy, 1..5 workers, in-process server). Histories: one "
+        "reader for many queries; ONE Bounds object (float64 / float32 / int64 arrays) and one level object handed to the "
+        "queries of several files in turn, the Bounds object and the reader's header compared before / after every call. "
+        "non-trivial = malformed, or the "
         "result is a proper non-empty subset of the stored points; distinct by (file bytes hash, query bit patterns)")
     _CASES = make_cases(ctx)
+    rng = ctx.rng
     cmds = []
     index = []
     for fi, (f, qs) in enumerate(_CASES):
         tree, ptok = file_model(f)
         f["_tree"] = tree
         for q in qs:
-            geom, qbox, hz, qgrid, lvt, csys = scaled_inputs(f, q)
+            geom, qbox, hz, qgrid, lvt, csys, sc = scaled_inputs(f, q)
             cmds.append(f"query {tree} {geom} {qbox} {hz} {qgrid} {lvt} {ptok} {csys}")
             cmds.append(f"load {tree} {geom} {qbox} {hz} {lvt}")
-            index.append((fi, q))
+            index.append((fi, q, qbox, sc))
     outs = common.run_model(cmds, name=DRIVER)
     dis = []
     import hashlib
     group_cmds = []
     group_expect = []
-    for n, (fi, q) in enumerate(index):
+    for n, (fi, q, qbox, sc) in enumerate(index):
         f = _CASES[fi][0]
         mq, ml = outs[2 * n].split(), outs[2 * n + 1].split()
         recs = tag_records(f)
         px = proxy()
         px.calls.clear()
-        impl = run_impl(f["raw"], q, spy=True)
+        info = {}
+        impl = run_impl(f["raw"], q, spy=True, info=info)
         ctx.traces += 1
         fh = hashlib.sha1(f["raw"]).hexdigest()[:12]
         if mq[0] == "ok":
@@ -851,27 +1122,63 @@ def correspond(ctx):
                         "model": model[1] if model[0] == "e" else f"{len(model[1])} records",
                         "impl": impl[1] if impl[0] == "e" else f"{len(impl[1])} records"})
             continue
+        # the state component: the caller's Bounds object after the call (model: unchanged, C15_shared_bounds)
+        if "bounds_obj" in info:
+            ctx.traces += 1
+            impl_caller = caller_token(info["bounds_obj"], sc)
+            if flags.get("caller") != impl_caller or flags.get("caller") != qbox or flags.get("fresh") != "T":
+                dis.append({"kind": "the caller's Bounds object after the query", "input": case_json(f, q),
+                            "model": {"caller": flags.get("caller"), "before": qbox, "fresh": flags.get("fresh")},
+                            "impl": {"caller": impl_caller}})
         # grouping: fetched ranges and chunk table
         if impl[0] == "ok" and ml[0] == "ok" and ml[1] != "-":
             nodes = [t.split(".") for t in ml[1].split(",")]
-            group_cmds.append("group " + ",".join(f"{t[4]}.{t[5]}.{t[6]}" for t in nodes))
+            gcmd = "group " + ",".join(f"{t[4]}.{t[5]}.{t[6]}" for t in nodes)
+            group_cmds.append(gcmd)
             src = impl[2].source
-            hdr_end = 0
             reads = [r for r in src.reads]
-            group_expect.append((f, q, reads, list(px.calls)))
+            group_expect.append((f, q, "bytesio", reads, list(px.calls)))
+            # the same query through another kind of source: same records in the same order, same buffer and chunk table
+            if rng.random() < 0.5:
+                other = rng.choice(SOURCES[1:])
+                px.calls.clear()
+                WORLD.log.clear()
+                impl2 = run_impl(f["raw"], q, source=other)
+                ctx.traces += 1
+                ctx.count("corr source:" + other.split("/")[0])
+                if (impl2[0], impl2[1]) != model:
+                    dis.append({"kind": f"query result through a {other.split('/')[0]} source", "input": dict(case_json(f, q), source=other),
+                                "model": f"{len(model[1])} records",
+                                "impl": impl2[1] if impl2[0] == "e" else f"{len(impl2[1])} records"})
+                else:
+                    group_cmds.append(gcmd)
+                    group_expect.append((f, q, other, list(WORLD.log) if other.startswith("http") else None, list(px.calls)))
     gouts = common.run_model(group_cmds, name=DRIVER) if group_cmds else []
-    for line, (f, q, reads, calls) in zip(gouts, group_expect):
+    for line, (f, q, source, reads, calls) in zip(gouts, group_expect):
         ctx.traces += 1
         parts = dict(t.split("=") for t in line.split())
-        queries = [] if parts["queries"] == "-" else [tuple(int(v) for v in t.split(":")) for t in parts["queries"].split(",")]
-        table = [] if parts["table"] == "-" else [tuple(int(v) for v in t.split(":")) for t in parts["table"].split(",")]
-        impl_reads = reads[-len(queries):] if queries else []
+
+        def ranges(tok):
+            return [] if tok == "-" else [tuple(int(v) for v in t.split(":")) for t in tok.split(",")]
+        queries, table, queue = ranges(parts["queries"]), ranges(parts["table"]), ranges(parts["queue"])
         impl_table = calls[-1][1] if calls else None
         impl_bytes = calls[-1][0] if calls else None
         want_bytes = b"".join(f["raw"][o:o + s] for o, s in queries)
-        if impl_reads != queries or impl_table != table or impl_bytes != want_bytes:
-            dis.append({"kind": "grouping of contiguous chunks", "input": case_json(f, q),
-                        "model": {"queries": queries, "table": table},
+        queue_bytes = b"".join(f["raw"][o:o + s] for o, s in queue)
+        if reads is None:               # sources whose reads are not recorded: buffer and table only
+            impl_reads = queries
+        elif source.startswith("http"):  # concurrent requests: as a multiset, after the hierarchy pages; a range of
+            queries = sorted(r for r in queries if r[1] > 0)        # 0 bytes is answered without a request
+            impl_reads = sorted(reads[-len(queries):]) if queries else []
+        else:
+            impl_reads = reads[-len(queries):] if queries else []
+        if not f["malformed"] and parts.get("apart") != "T":
+            dis.append({"kind": "generated file has overlapping chunks (hypothesis of C15_any_source)", "input": case_json(f, q),
+                        "model": parts.get("apart"), "impl": None})
+        if impl_reads != queries or impl_table != table or impl_bytes != want_bytes or queue_bytes != want_bytes:
+            dis.append({"kind": "grouping of contiguous chunks" + ("" if source == "bytesio" else f" ({source.split('/')[0]} source)"),
+                        "input": dict(case_json(f, q), source=source),
+                        "model": {"queries": queries, "table": table, "queue": queue},
                         "impl": {"reads": impl_reads, "table": impl_table, "bytes_equal": impl_bytes == want_bytes}})
     return dis
 
@@ -895,13 +1202,19 @@ def truth_from_json(j, raw):
             "keys": [tuple(k) for k, _ in j["nodes"]]}
 
 
-def check_one(f, q, reader=None):
-    """oracle verdict for one query: None or (kind, observed)"""
-    impl = run_impl(reader if reader is not None else f["raw"], q)
+def judge(f, q, impl, info=None):
+    """oracle verdict for the answer `impl` of one query: None or (kind, observed)"""
     bad = f["malformed"]
     box, lv = q
     if impl[0] == "e" and impl[1] == "LOOPS":
         return ("query does not terminate" + (f" ({bad})" if bad else ""), f"no answer within {WATCHDOG_S} s")
+    if info and info.get("bounds_changed"):
+        b0, b1 = info["bounds_changed"]
+        return ("the query modifies the caller's Bounds object",
+                f"Bounds before the call: mins/maxs {[x[1:3] for x in b0]}, after: {[x[1:3] for x in b1]}; "
+                f"values before {[x[3] for x in b0]}, after {[x[3] for x in b1]}")
+    if info and info.get("header_changed"):
+        return ("the query modifies the reader's header", "mins / maxs / scales / offsets / point_count differ after the call")
     if bad:
         reached = (box is None) and (lv[0] == "A" or (lv[0] == "R" and lv[2] > 1) or (lv[0] == "I" and lv[1] >= 1))
         if bad != "mutual" and reached:
@@ -914,7 +1227,7 @@ def check_one(f, q, reader=None):
                 return None      # the broken part may be reached through the box as well
             return (f"unexpected exception ({bad})", impl[1])
     if impl[0] == "e":
-        return ("query raises", impl[1])
+        return ("query raises", impl[1] + (f" ({info['error']})" if info and info.get("error") else ""))
     why = oracle(f, q, impl[1])
     if why:
         cls = "missing point" if "not returned" in why else ("outside point" if "outside" in why else "wrong record")
@@ -922,6 +1235,94 @@ def check_one(f, q, reader=None):
             cls = "outside point at the end of the int32 grid"
         return (cls, why)
     return None
+
+
+def check_one(f, q, reader=None, source="bytesio", bounds=None, level=None):
+    """oracle verdict for one query: None or (kind, observed)"""
+    info = {}
+    impl = run_impl(reader if reader is not None else f["raw"], q, source=source, bounds=bounds, level=level, info=info)
+    v = judge(f, q, impl, info)
+    if v and source != "bytesio" and reader is None:
+        return (v[0] + f" [{source.split('/')[0]} source]", v[1] + f" [source: {source}]")
+    return v
+
+
+# ---- sessions: the SAME Bounds / level objects and the same readers used for several files and several queries ---------
+def run_session(files, q, order, container="f64", shared=True, sources=None, answers_only=False):
+    """one Bounds object and one level object for the whole session, one reader per file (opened at its first step);
+    -> (step index, kind, observed) of the first step whose answer is wrong, or None"""
+    box, lv = q
+    b = make_bounds(box, container)
+    lvl, _res = make_level(lv)
+    readers = {}
+    cleanups = []
+    side = None
+    try:
+        for step, fi in enumerate(order):
+            f = files[fi]
+            if fi not in readers:
+                try:
+                    readers[fi], cl = open_reader(f["raw"], (sources or {}).get(fi, "bytesio"))
+                    cleanups.append(cl)
+                except Exception as ex:  # noqa
+                    return (step, "CopcReader cannot open a well-formed file", common.exc_kind(ex))
+            info = {}
+            impl = run_impl(readers[fi], q, bounds=b if shared else make_bounds(box, container), level=lvl if shared else None, info=info)
+            v = judge(f, q, impl, {"error": info.get("error")})   # the answer first: what a modified object leads to ...
+            if v:
+                src = (sources or {}).get(fi, "bytesio")
+                return (step, v[0] + (f" [{src.split('/')[0]} source]" if src != "bytesio" else ""), v[1])
+            if side is None and not answers_only:
+                v = judge(f, q, impl, info)         # ... then the modification itself
+                if v:
+                    side = (step, v[0], v[1])
+    finally:
+        for cl in cleanups:
+            cl()
+    return side
+
+
+def session_json(files, q, order, container, sources=None):
+    return {"session": {"files": [{"file": f["label"], "file_hex": f["raw"].hex(), "truth": truth_json(f)} for f in files],
+                        "query": q_json(q), "order": list(order), "container": container,
+                        "sources": {str(k): v for k, v in (sources or {}).items()}}}
+
+
+def check_session(files, q, order, container="f64", sources=None):
+    """None or a failing-input dict (minimised to the shortest prefix / pair of steps that still fails)"""
+    r = run_session(files, q, order, container, sources=sources)
+    if r is None:
+        return None
+    step, kind, obs = r
+    order = list(order[:step + 1])
+    fresh = run_session(files, q, order, container, shared=False, sources=sources, answers_only=True)
+    note = " [same Bounds / level objects and readers re-used over several files and queries"
+    if fresh is None:
+        note += "; with fresh objects for every query every step is right]"
+        # shortest history: one earlier step, then the failing one
+        for i in dict.fromkeys(order[:-1]):
+            two = [i, order[-1]]
+            r2 = run_session(files, q, two, container, sources=sources)
+            if r2 is not None and r2[0] == 1:
+                order, (step, kind, obs) = two, r2
+                break
+        else:
+            r1 = run_session(files, q, order[-1:], container, sources=sources)
+            if r1 is not None:
+                order, (step, kind, obs) = order[-1:], r1
+    else:
+        note += "]"
+        r1 = run_session(files, q, order[-1:], container, sources=sources)
+        if r1 is not None:
+            order, (step, kind, obs) = order[-1:], r1
+    used = sorted(set(order))
+    remap = {fi: n for n, fi in enumerate(used)}
+    sub_sources = {remap[k]: v for k, v in (sources or {}).items() if k in remap}
+    suffix = " (objects re-used)" if len(order) > 1 else ""
+    base, _, src_note = kind.partition(" [")
+    kind = base + suffix + (" [" + src_note if src_note else "")
+    return {"kind": kind, "input": session_json([files[i] for i in used], q, [remap[i] for i in order], container, sub_sources),
+            "observed": f"step {step} (file {files[order[step]]['label']}): {obs}" + (note if len(order) > 1 else "")}
 
 
 def search(ctx, seeds):
@@ -932,15 +1333,19 @@ def search(ctx, seeds):
     seen = set()
     rng = ctx.rng
 
-    def report(f, q, verdict):
+    def report(f, q, verdict, source=None):
         kind, obs = verdict
-        if kind in seen:
+        base = kind.split(" [")[0]          # one failing input per class, whatever the source it was seen through
+        if base in seen:
             return
-        seen.add(kind)
-        failing.append({"kind": kind, "input": case_json(f, q), "observed": obs})
+        seen.add(base)
+        inp = case_json(f, q)
+        if source:
+            inp["source"] = source
+        failing.append({"kind": kind, "input": inp, "observed": obs})
 
     for f, qs in cases:
-        if len(failing) >= 5:
+        if len(failing) >= 6:
             break
         # fresh reader per query
         for q in qs:
@@ -960,6 +1365,27 @@ def search(ctx, seeds):
                 v = check_one(f, q, reader=rd)
                 if v:
                     report(f, q, (v[0], v[1] + " [reader reused for several queries]"))
+            # the same queries through the other kinds of source: a file object without readinto, a path on disk, and
+            # http (both strategies, 1..5 workers) - any chunk order must come back right whatever fetches the chunks
+            for q in qs:
+                src = rng.choice(SOURCES[1:])
+                ctx.evaluations += 1
+                ctx.count("source:" + src.split("/")[0])
+                v = check_one(f, q, source=src)
+                if v:
+                    report(f, q, v, source=src)
+    # the caller's objects and the readers re-used over several files and queries
+    for files, q, order, container, srcs in (_SESSIONS or []):
+        if len(failing) >= 6:
+            break
+        ctx.evaluations += len(order)
+        ctx.count("session steps", len(order))
+        bad = check_session(files, q, order, container, srcs)
+        base = bad["kind"].split(" [")[0].replace(" (objects re-used)", "") if bad else None
+        if bad and (base not in seen or "(objects re-used)" in bad["kind"]) and bad["kind"].split(" [")[0] not in seen:
+            seen.add(base)
+            seen.add(bad["kind"].split(" [")[0])
+            failing.append(bad)
     return failing
 
 
@@ -969,9 +1395,18 @@ def replay(ctx, data):
     if not inp:
         print("nothing to replay")
         return 0
+    if "session" in inp:
+        se = inp["session"]
+        files = [truth_from_json(x["truth"], bytes.fromhex(x["file_hex"])) for x in se["files"]]
+        for x, f in zip(se["files"], files):
+            f["label"] = x["file"]
+        r = run_session(files, q_from_json(se["query"]), se["order"], se["container"],
+                        sources={int(k): v for k, v in se.get("sources", {}).items()})
+        print("REPRODUCED:" if r else "not reproduced", r if r else "")
+        return 1 if r else 0
     raw = bytes.fromhex(inp["file_hex"])
     f = truth_from_json(inp["truth"], raw)
     q = q_from_json(inp["query"])
-    v = check_one(f, q)
+    v = check_one(f, q, source=inp.get("source", "bytesio"))
     print("REPRODUCED:" if v else "not reproduced", v if v else "")
     return 1 if v else 0
